@@ -249,6 +249,14 @@ fn gen_histories(tag: i64, tier: Tier, r: &mut Rng, em: &mut Emitter, exhaustive
 pub fn gen_c14(tier: Tier, seed: u64, em: &mut Emitter) {
     let mut r = Rng::new(seed ^ 0xC14);
     gen_straddle(&mut r, em);
+    // thorough tier, optimised build only: exactly 2^32 resets in a row (about half a minute)
+    // between progress on a channel and its continuation -- 32-bit generation counters
+    if tier == Tier::Thorough && !cfg!(debug_assertions) {
+        let c = r.below(16) as i64;
+        let st = 176 + c;
+        em.emit_k("2^32 resets", 140, vec![5, 0, st, 99, 3, 0, st, 98, 36, 0, st, 6, 117, 2, (1i64 << 32) - 1, 0, 0,
+                                            0, st, 38, 5, 4, 5, 0, 0, 3, c, 0, 0, 0, st, 6, 9, 4, 5, 0, 0, 3, c, 0, 0]);
+    }
     gen_histories(140, tier, &mut r, em, true);
 }
 
